@@ -256,10 +256,37 @@ class Cfg:
     def write(self):
         os.makedirs(CFGDIR, exist_ok=True)
         txt = self.text()
-        path = os.path.join(CFGDIR, hashlib.sha1(txt.encode()).hexdigest()[:16] + ".conf")
-        if not os.path.exists(path):
+        k = getattr(self, "include_split", 0)
+        key = hashlib.sha1((txt + "#%d" % k).encode()).hexdigest()[:16]
+        path = os.path.join(CFGDIR, key + ".conf")
+        if os.path.exists(path):
+            return path
+        if not k:
             with open(path, "w") as f:
                 f.write(txt)
+            return path
+        # the same configuration spread over the files of ONE wildcard Include: they are read in alphabetical order and
+        # the blocks register in the order written (radsecproxy.conf(5)), so clients, servers and realms keep their order
+        lines = txt.split("\n")
+        blocks, cur, head = [], [], []
+        for l in lines:
+            if cur:
+                cur.append(l)
+                if l == "}":
+                    blocks.append("\n".join(cur))
+                    cur = []
+            elif l.endswith("{"):
+                cur = [l]
+            elif l:
+                head.append(l)
+        d = os.path.join(CFGDIR, key + ".d")
+        os.makedirs(d, exist_ok=True)
+        per = max(1, (len(blocks) + k - 1) // k)
+        for i in range(0, len(blocks), per):
+            with open(os.path.join(d, "%02d-part.conf" % (10 + i // per * 10)), "w") as f:
+                f.write("\n".join(blocks[i:i + per]) + "\n")
+        with open(path, "w") as f:
+            f.write("\n".join(head) + "\nInclude %s/*.conf\n" % d)
         return path
 
     def cfg_op(self):
@@ -315,6 +342,8 @@ def rand_cfg(rng, nclients=None, nservers=None, rewrites=True, ttl=True, plain_t
             sv["rc"] = rng.randrange(0, 11) if ty in (0, 3) else 0
             sv["ri"] = rng.choice([1, 2, 3, 5, 10, 60, rng.randrange(1, 61)])
         c.servers.append(sv)
+    if rng.random() < 0.25:     # the blocks spread over the files of a wildcard Include
+        c.include_split = rng.choice([2, 3, 4])
     if rng.random() < 0.2:      # a server and a client sharing one secret (say "radsec" on two TLS legs)
         rng.choice(c.servers)["secret"] = rng.choice(c.clients)["secret"]
     snames = [s["name"] for s in c.servers]
